@@ -32,6 +32,7 @@ def case_strategy(tier):
         'armored': st.booleans(),
         'supplied': st.booleans(),
         'forget': st.sampled_from([False, False, False, True]),
+        'throw': st.sampled_from([False, False, False, True]),
         'bwd': st.fixed_dictionaries({
             'container': st.sampled_from([18, 18, 18, 9]),
             'esk': st.booleans(),
@@ -96,6 +97,13 @@ def eval_forward(case, rec):
         rec.finding('fwd/encrypt', 'exception/' + harness.exc_key(e), case, repr(e))
         return
     binblob = bytes(encm)
+    if case.get('throw') and any(r['t'] == 'key' for r in recips):
+        # the sender's tool hides the recipients afterwards (gpg --throw-keyids): the key id of every PKESK is set to zero; armor headers stay
+        pk = wire.split_packets(binblob)
+        binblob = b''.join(wire.build_packet(1, p.body[:1] + bytes(8) + p.body[9:]) if p.tag == 1 else p.raw for p in pk)
+        hdrs = tuple(encm.ascii_headers.items())
+        blob = armor.write_block('MESSAGE', binblob, headers=hdrs) if case['armored'] else binblob
+        rec.note('fwd/key-ids-thrown-afterwards')
     # structure: ESK* then one container (reference grammar)
     try:
         pm = grammar.parse_message(binblob)
@@ -348,6 +356,9 @@ def matrix(arg):
                 evaluate(case, rec)
                 if d == 'fwd' and i % 4 == 1:
                     evaluate(dict(case, dir='clear', text='cleartext message\n- of two lines'), rec)
+                if d == 'fwd' and i % 4 == 3 and r['t'] == 'key':
+                    # text in a declared character set, armored, the key ids thrown afterwards
+                    evaluate(dict(case, armored=True, throw=True, msg=dict(case['msg'], fmt='t', charset='koi8-r', body='f0d2c9d7c5d42c20cdc9d2', signers=[])), rec)
     return rec
 
 
